@@ -328,6 +328,16 @@ class Program(object):
             raise AnalysisError("anchor function %s not found in %s" % (qualname, self.pkgdir))
         return m.functions[local]
 
+    def fn_role(self, qualname, role):
+        """A private helper anchored by role: the function of that name if it still exists, else the unique function that
+        plays `role` (so that a rename of a private helper is not an analysis error)."""
+        if self.has_fn(qualname):
+            return self.fn(qualname)
+        cands = ROLES[role](self)
+        if len(cands) == 1:
+            return cands[0]
+        raise AnalysisError("anchor %s not found and its role %r is played by %d functions" % (qualname, role, len(cands)))
+
     def cls(self, qualname):
         mod, _, local = qualname.partition(".")
         m = self.modules.get(mod)
@@ -547,3 +557,33 @@ class Report(object):
 
     def count(self, rule):
         return sum(1 for o in self.obligations if o["rule"] == rule)
+
+
+# ---------------------------------------------------------------------- roles of private anchors
+def _role_conform_file(prog):
+    """the function of `conformance` (other than the public worker) that writes target files through emit.file"""
+    out = []
+    m = prog.modules.get("conformance")
+    if m is None:
+        return out
+    for f in m.functions.values():
+        if f.qualname == "conformance.ground_truth" or f.parent_fn is not None:
+            continue
+        n_emit = sum(1 for c in ast.walk(f.node) if isinstance(c, ast.Call) and prog.is_fn(c.func, "emit.file", c))
+        if n_emit >= 2:
+            out.append(f)
+    return out
+
+
+def _role_build_parser(prog):
+    out = []
+    m = prog.modules.get("__main__")
+    if m is None:
+        return out
+    for f in m.functions.values():
+        if any(isinstance(c, ast.Call) and isinstance(c.func, ast.Attribute) and c.func.attr == "add_subparsers" for c in ast.walk(f.node)):
+            out.append(f)
+    return out
+
+
+ROLES = {"conform_file": _role_conform_file, "build_parser": _role_build_parser}
